@@ -154,6 +154,11 @@ class Impl:
             raise InvalidCase(str(o))
         res = self._apply(o)
         M = self.model
+        if o[0] == "Exit" and res != "Ok" and not self.strict:
+            # C01 / C02 allow bounds edits on objects that left the model inside the block; such edits are invisible
+            # to the context and can make the replayed undo functions raise (ValueError of the bounds check).  What
+            # an aborted __exit__ leaves behind is not modelled: the history ends before such an Exit.
+            raise InvalidCase("exit raised after out-of-scope edits")
         now = {k for k, r in self.rx.items() if r._model is M}
         if len(M._contexts) == 0:
             self.block = set(now)
@@ -238,8 +243,13 @@ class Impl:
             mid = "M%d" % k
             if mid in M.metabolites:
                 m = M.metabolites.get_by_id(mid)
-                back = sorted(int(r.id[1:]) for r in m._reaction)
-                mt.append({"id": k, "in": True, "back": back, "model_ptr": m._model is M})
+                # A reaction outside the model that shares this very metabolite object (possible once a block that
+                # adopted the reaction has been rolled back) keeps its registration; the model has one object per
+                # identifier, so these are reported apart (C02 monitor, code 6) and not compared.
+                det = sorted(int(r.id[1:]) for r in m._reaction
+                             if r._model is not M and any(x is m for x in r._metabolites))
+                back = sorted(int(r.id[1:]) for r in m._reaction if int(r.id[1:]) not in det)
+                mt.append({"id": k, "in": True, "back": back, "model_ptr": m._model is M, "detached_back": det})
             else:
                 mt.append({"id": k, "in": False, "back": []})
         raw = obsmodel.observe_raw(M)
@@ -466,7 +476,10 @@ def gen_history(rng, length, solver="glpk", ctx_p=0.12, max_depth=3, fail_p=0.15
         if not im.in_scope(o):
             continue
         before_m, before_r = set(mets_in()), set(in_model_r())
-        im.apply(o)
+        try:
+            im.apply(o)
+        except InvalidCase:
+            return {"ops": ops, "solver": solver}
         ops.append(o)
         if o[0] == "NewRxn":
             pending.add(o[1])
@@ -477,7 +490,10 @@ def gen_history(rng, length, solver="glpk", ctx_p=0.12, max_depth=3, fail_p=0.15
         removed_r |= (before_r - after_r)
     # close the open contexts so every block is checked
     while len(M._contexts) > 0:
-        im.apply(["Exit"])
+        try:
+            im.apply(["Exit"])
+        except InvalidCase:
+            break
         ops.append(["Exit"])
     return {"ops": ops, "solver": solver}
 
@@ -592,7 +608,11 @@ def main(prop, own_codes, gen_params, rule, manifest_trusted, argv=None):
         broken.append("model evaluation (coqc on generated cases) failed: " + faults[0][-800:])
     want_all = set(own_codes) | {1}
     op_hist, res_hist, nontrivial, n_steps, n_blocks = {}, {}, set(), 0, 0
-    for c, (o0, steps) in zip(cases, impl):
+    n_invalid = sum(1 for ob in impl if ob is None)
+    for c, ob in zip(cases, impl):
+        if ob is None:          # outside the modelled domain (scope rule / aborted exit): not evaluated
+            continue
+        o0, steps = ob
         changed = False
         for o, s in zip(c["ops"], steps):
             op_hist[o[0]] = op_hist.get(o[0], 0) + 1
@@ -634,6 +654,23 @@ def main(prop, own_codes, gen_params, rule, manifest_trusted, argv=None):
                                  "GLPK columns (name = [reaction, is_reverse]) and rows",
                   "theorem": "coq/theories/Properties/%s.v" % prop}
         rep.violation(sig, replay)
+    if prop == "C02":
+        # code 6 (harness-side monitor): a model metabolite lists a reaction object that is outside the model
+        done6 = False
+        for c, ob in zip(cases, impl):
+            if ob is None or done6:
+                continue
+            for n, s in enumerate(ob[1]):
+                det = [(m["id"], m["detached_back"]) for m in s["mt"] if m.get("detached_back")]
+                if det:
+                    small = {"ops": c["ops"][:n + 1], "solver": c["solver"]}
+                    n_fail += 1
+                    rep.violation({"code": 6, "op": c["ops"][n][0], "detached_back": True},
+                                  {"case": small, "failed": "a model metabolite lists a reaction that is outside the model",
+                                   "codes": [6], "metabolite_and_detached_reactions": det,
+                                   "observation_after_last_op": s, "theorem": "coq/theories/Properties/C02.v"})
+                    done6 = True
+                    break
     if broken and rep.violations == 0 and not rep.known:
         rep.violation({"broken": True}, {"broken_obligations": broken,
                       "note": "a proof obligation or the correspondence machinery no longer checks; no failing input found"},
@@ -647,7 +684,7 @@ def main(prop, own_codes, gen_params, rule, manifest_trusted, argv=None):
             "evaluations": len(cases), "distinct_nontrivial": len(nontrivial), "rule": rule,
             "samples": [cases[i] for i in sorted({0, len(cases) // 2, len(cases) - 1})] if cases else [],
             "traces_validated_against_impl": len(cases) - n_fail, "disagreements_checked": n_fail,
-            "steps_observed": n_steps, "context_blocks_closed": n_blocks, "exhaustive": False,
+            "steps_observed": n_steps, "histories_outside_domain": n_invalid, "context_blocks_closed": n_blocks, "exhaustive": False,
             "op_distribution": op_hist, "result_distribution": res_hist, "broken_obligations": broken,
             "run_s": round(time.time() - t0, 1),
         },
